@@ -16,9 +16,11 @@ import (
 	"math"
 	"runtime/debug"
 	"sort"
+	"strings"
 	"time"
 
 	"verif/lmap"
+	"verif/pmap"
 	"verif/vlib"
 )
 
@@ -78,8 +80,16 @@ var interestingStrings = []string{"", "a", "b", "ab", "ba", " ", "\x00", "한국
 	"a-rather-long-key-0123456789012345678901234567890123456789012345678901234567890123456789"}
 
 func keyPool(t *lmap.TypeDesc, r *vlib.Rand, size int) []any {
+	pool, _ := keyPoolFor(t, r, size, lmap.Config{Default: true}, false)
+	return pool
+}
+
+// keyPoolFor builds the pool of one history: equal-hash groups and level groups (twins.go)
+// first, then the interesting keys, then a run.
+func keyPoolFor(t *lmap.TypeDesc, r *vlib.Rand, size int, cfg lmap.Config, withGroups bool) ([]any, *twinSet) {
 	seen := map[any]bool{}
 	var pool []any
+	tw := &twinSet{}
 	add := func(k any) {
 		if t.Key == lmap.KInt32 {
 			k = int64(int32(k.(int64)))
@@ -89,7 +99,36 @@ func keyPool(t *lmap.TypeDesc, r *vlib.Rand, size int) []any {
 			pool = append(pool, k)
 		}
 	}
+	if withGroups && size <= 3 && r.Bool() {
+		withGroups = false // half of the tiny pools stay as they were
+	}
+	if withGroups {
+		for _, g := range twinGroups(t, r, twinGroupCount(r, size)) {
+			if len(pool)+len(g) > size {
+				g = g[:2]
+			}
+			if len(pool)+len(g) > size && len(pool) > 0 {
+				break
+			}
+			for _, k := range g {
+				add(k)
+			}
+			tw.add(g)
+		}
+		if t.Key != lmap.KString && size >= 6 {
+			for _, g := range levelGroups(t, r, cfg, minInt(size/3, 60)) {
+				for _, k := range g {
+					if len(pool) < size {
+						add(k)
+					}
+				}
+			}
+		}
+	}
 	special := size/2 + 2
+	if withGroups {
+		special = len(pool) + (size-len(pool))/2 + 1
+	}
 	if t.Key == lmap.KString {
 		cand := append([]string{}, interestingStrings...)
 		if t.Name == "StringLinkedSet" {
@@ -108,7 +147,7 @@ func keyPool(t *lmap.TypeDesc, r *vlib.Rand, size int) []any {
 		for i := 0; len(pool) < size; i++ {
 			add(fmt.Sprintf("k%d", base+i))
 		}
-		return pool
+		return pool, tw
 	}
 	cand := append([]int64{}, interestingInts...)
 	r.Shuffle(len(cand), func(i, j int) { cand[i], cand[j] = cand[j], cand[i] })
@@ -126,7 +165,14 @@ func keyPool(t *lmap.TypeDesc, r *vlib.Rand, size int) []any {
 	for i := int64(0); len(pool) < size; i++ {
 		add(base + i*stride)
 	}
-	return pool
+	return pool, tw
+}
+
+func minInt(a, b int) int {
+	if a < b {
+		return a
+	}
+	return b
 }
 
 type valGen struct {
@@ -232,6 +278,7 @@ type hist struct {
 	dead map[string]bool
 	log  []string // executed operations, for the replay file
 	pool []any
+	tw   *twinSet // equal-hash key groups mixed into the pool (twins.go)
 	stop bool
 	tlen int
 	muts int
@@ -353,6 +400,15 @@ func (h *hist) observe(full bool) {
 			}
 		}
 		h.c.Count("lookup_all_checks", 1)
+		if h.liveTwinGroups() > 0 {
+			h.c.Count("lookup_all_checks_with_equal_hash_pair_stored", 1)
+		}
+		// every member of an equal-hash group, stored or not
+		if !h.tw.empty() {
+			for _, k := range h.tw.mem {
+				list = append(list, one{op: lmap.Op{Name: "ContainsKey", K: k}})
+			}
+		}
 	}
 	for i := range list {
 		h.curOp, h.curMethod = list[i].op, list[i].op.Name
@@ -444,8 +500,11 @@ func (h *hist) step(op lmap.Op, full bool) {
 		}
 		return
 	}
+	twin, partner := h.partnerLive(op.K)
+	self := twin && h.live(op.K)
 	exp := h.m.Step(op)
 	info := h.m.Last
+	h.twinCoverage(op, twin, partner, self, info)
 	if !res.Equal(exp) {
 		h.fail(h.key(op, op.Name, "wrong-return"), fmt.Sprintf("%s.%s returned %v, model %v", h.t.Name, op, res, exp),
 			map[string]any{"got": res.String(), "expected": exp.String()})
@@ -490,9 +549,24 @@ func (h *hist) step(op lmap.Op, full bool) {
 		c.Count("ops_with_negative_or_extreme_key", 1)
 	}
 
+	oldLen := h.tlen
 	s, ok := h.state(op, full)
 	if !ok {
 		return
+	}
+	if oldLen != 0 && s.TableLen > oldLen {
+		// the content before the operation: what is there now, without the key just inserted, with the keys just evicted
+		before := make([]any, 0, len(s.Keys)+len(info.Evicted))
+		for _, k := range s.Keys {
+			if !(info.Inserted && k == op.K) {
+				before = append(before, k)
+			}
+		}
+		before = append(before, info.Evicted...)
+		h.growthCoverage(oldLen, before)
+		if h.liveTwinGroups() > 0 {
+			c.Count("rehashes_with_equal_hash_pair_stored", 1)
+		}
 	}
 	if !lmap.SeqEqual(s.Keys, h.m.Keys()) || !lmap.SeqEqual(s.Vals, h.m.Values()) || s.Count != h.m.Size() {
 		kind := classify(h.m, info, op, s.Keys, s.Vals)
@@ -556,7 +630,11 @@ func runHistory(c *vlib.Ctx, t *lmap.TypeDesc, idx int, r *vlib.Rand, dead map[s
 		}
 	}
 	h := &hist{c: c, t: t, cfg: cfg, dead: dead}
-	h.pool = keyPool(t, r, poolSize)
+	h.pool, h.tw = keyPoolFor(t, r, poolSize, cfg, true)
+	if !h.tw.empty() {
+		c.Count("histories_with_equal_hash_groups", 1)
+		c.SetAdd("types_with_equal_hash_groups", t.Name)
+	}
 	h.in = t.New(cfg)
 	h.m = lmap.NewModel(t, cfg)
 	h.run = lmap.NewRunner()
@@ -623,6 +701,8 @@ func runHistory(c *vlib.Ctx, t *lmap.TypeDesc, idx int, r *vlib.Rand, dead map[s
 			op := lmap.Op{Name: name}
 			// key
 			switch {
+			case !h.tw.empty() && r.Chance(1, 7):
+				op.K = h.pickTwin(r, name)
 			case len(h.m.Ents) > 0 && r.Chance(1, 8):
 				op.K = h.m.Ents[r.Intn(len(h.m.Ents))].K
 			case r.Chance(1, 25):
@@ -677,6 +757,22 @@ func runHistory(c *vlib.Ctx, t *lmap.TypeDesc, idx int, r *vlib.Rand, dead map[s
 			t.Name, t.Real(h.curMethod)), map[string]any{"stack": stack})
 	case lmap.Hung:
 		hungTypes[t.Name] = true
+		// Not parked: a busy loop or a starved machine. The clock cannot tell which; the private
+		// links can: a cyclic hash chain / an order-list cycle that avoids the header (seen at two
+		// looks, while the helper goroutine is inside a method of the structure) proves that the
+		// walk in progress cannot end.
+		if strings.Contains(stack, "github.com/whatap/golib/util/hmap.") {
+			if lmap.FindCycle(h.in) != "" {
+				time.Sleep(20 * time.Millisecond)
+				if cyc := lmap.FindCycle(h.in); cyc != "" {
+					c.Count("histories_abandoned_after_endless_walk", 1)
+					reported[h.key(h.curOp, h.curMethod, "never-returns")]++
+					c.Fail(h.key(h.curOp, h.curMethod, "never-returns"), fmt.Sprintf("%s.%s never returns on a private single-goroutine instance: the call is running inside the structure and %s — the walk over it cannot end",
+						t.Name, t.Real(h.curMethod), cyc), map[string]any{"type": t.Name, "config": h.cfg, "operations": append([]string(nil), h.log...), "cycle": cyc, "stack": stack})
+					return
+				}
+			}
+		}
 		c.Eval(-1) // an inconclusive case is not an evaluation
 		c.Inconclusive(fmt.Sprintf("%s.%s", t.Name, t.Real(h.curMethod)), "history did not finish within 30 s and is not parked on a mutex (busy loop or starved machine); the remaining histories of this type are skipped in this process")
 		return
@@ -755,6 +851,14 @@ func main() {
 	c := vlib.Start("C09")
 	debug.SetGCPercent(1000) // tiny live heap, high allocation rate: do not collect every 4 MB
 	dead := probeSelfDeadlocks(c)
+	if c.Shard == 0 {
+		grp := pmap.CRCGroups()
+		c.Note(fmt.Sprintf("equal-hash string groups for the hash.HashStr keyed maps: %d, from %s", len(grp.Groups), grp.Source))
+		if !grp.LibraryAgrees {
+			c.Note("hash.HashStr is not CRC-32 IEEE on the reference collision groups (C15 checks that equality); the groups were searched with the library's own function")
+		}
+		c.Note(fmt.Sprintf("equal-hashCode string groups for StringLinkedSet: %d built from the blocks Aa/BB/C#, %d dropped because stringutil.HashCode does not give one value for them", len(javaGroups), javaGroupsDropped))
+	}
 	per := c.N(3000, 60000)
 	for _, t := range lmap.Types {
 		t := t
@@ -774,6 +878,20 @@ func main() {
 	c.Floor("walker_runs", exp*3, c.Counter("walker_runs"))
 	c.Floor("evictions", exp/10, c.Counter("evictions"))
 	c.Floor("rehashes_observed", exp/20, c.Counter("rehashes_observed"))
+	// equal-hash groups and chains at growth (twins.go)
+	c.Floor("equal_hash_second_member_inserted_both_stay", exp/5, c.Counter("equal_hash_second_member_inserted_both_stay"))
+	c.Floor("equal_hash_member_removed_partner_stays", exp/20, c.Counter("equal_hash_member_removed_partner_stays"))
+	c.Floor("equal_hash_lookup_of_absent_member_with_partner_stored", exp/20, c.Counter("equal_hash_lookup_of_absent_member_with_partner_stored"))
+	c.Floor("lookup_all_checks_with_equal_hash_pair_stored", exp/5, c.Counter("lookup_all_checks_with_equal_hash_pair_stored"))
+	c.Floor("rehashes_with_equal_hash_pair_stored", exp/100, c.Counter("rehashes_with_equal_hash_pair_stored"))
+	c.Floor("growths_with_old_chain_ge2", exp/50, c.Counter("growths_with_old_chain_ge2"))
+	c.Floor("growths_with_equal_hash_keys_in_old_chain", exp/120, c.Counter("growths_with_equal_hash_keys_in_old_chain"))
+	c.Floor("growths_with_negative_key_in_old_chain", exp/80, c.Counter("growths_with_negative_key_in_old_chain"))
+	for _, t := range lmap.Types {
+		if g := twinGroups(t, vlib.NewRand(1), 1); len(g) > 0 {
+			c.Floor("equal_hash_both_stored_"+t.Name, exp/60, c.Counter("equal_hash_both_stored_"+t.Name))
+		}
+	}
 	c.Floor("updates_of_existing_key_when_full", exp/20, c.Counter("updates_of_existing_key_when_full"))
 	c.Finish()
 	fmt.Println("done")
